@@ -30,7 +30,7 @@ func init() {
 	properties["C03"] = &property{
 		ID: "C03", Level: "model_checking", Kinds: []string{"history"},
 		Harnesses: relHarnesses([]string{"gsxHistVisit_", "gsxHistWalk_"}, "history",
-			[]map[string]int{{"K": 3, "B": 2, "strlen": 8, "paths": 800, "wall_s": 15}, {"K": 2, "B": 2, "strlen": 8, "paths": 300, "wall_s": 10}},
+			[]map[string]int{{"K": 3, "B": 2, "strlen": 8, "paths": 300, "wall_s": 6}, {"K": 2, "B": 2, "strlen": 8, "paths": 150, "wall_s": 5}},
 			[]map[string]int{{"K": 4, "B": 2, "strlen": 8, "paths": 20000, "wall_s": 300}, {"K": 3, "B": 2, "strlen": 8, "paths": 10000, "wall_s": 300}}),
 		Assumptions: []string{"as C01; one step of history (an arbitrary earlier input) from the initial checker state, against a fresh instance"},
 	}
@@ -61,7 +61,7 @@ func init() {
 		Assumptions: []string{"patterns: the repository's own examples plus a bounded grammar (see evidence); Go's regexp/syntax parser is the semantics' front end; subjects are byte strings"}}
 	properties["C07"] = &property{
 		ID: "C07", Level: "model_checking", Kinds: []string{"pos"},
-		Harnesses: visitHarnesses(map[string]int{"K": 3, "B": 2, "strlen": 8, "paths": 1000, "wall_s": 25}, map[string]int{"K": 4, "B": 2, "strlen": 8, "paths": 30000, "wall_s": 600}),
+		Harnesses:   visitHarnesses(map[string]int{"K": 3, "B": 2, "strlen": 8, "paths": 1000, "wall_s": 25}, map[string]int{"K": 4, "B": 2, "strlen": 8, "paths": 30000, "wall_s": 600}),
 		Assumptions: []string{"as C01; diagnostics are observed in the checker's warning buffer; message formatting (go/printer) is an event stub checked for format/argument consistency"},
 	}
 	properties["C05"] = &property{
@@ -163,6 +163,7 @@ func relHarnesses(prefixes []string, mode string, quick, thorough []map[string]i
 		return nil
 	}
 	var hs []harness
+	stateful, fileWalkers := statefulCheckers()
 	exempt := map[string]bool{"dupImport": true, "typeDefFirst": true, "commentedOutImport": true, "codegenComment": true, "docStub": true, "ruleguard": true}
 	for _, n := range names {
 		if mode == "local" && exempt[n] {
@@ -170,6 +171,20 @@ func relHarnesses(prefixes []string, mode string, quick, thorough []map[string]i
 		}
 		for i, pre := range prefixes {
 			h := harness{Name: pre + n, Pkg: "checkers", Quick: quick[i], Thorough: thorough[i], NoValidate: true, Tolerant: true, ReplayFn: replayRelational(n, mode)}
+			if mode == "history" {
+				// budgets follow where state can survive: checkers that assign to their own
+				// fields get a deep quick run, the others a shallow one
+				switch {
+				case pre == "gsxHistVisit_" && stateful[n]:
+					h.Quick = map[string]int{"K": 3, "B": 2, "strlen": 8, "paths": 8000, "wall_s": 25}
+				case pre == "gsxHistWalk_" && fileWalkers[n] && stateful[n]:
+					h.Quick = map[string]int{"K": 4, "B": 2, "strlen": 8, "paths": 20000, "wall_s": 40}
+				case pre == "gsxHistWalk_" && (n == "importShadow" || n == "flagName"):
+					h.Quick = map[string]int{"K": 3, "B": 2, "strlen": 8, "paths": 8000, "wall_s": 30}
+				default:
+					h.Quick = map[string]int{"K": 2, "B": 2, "strlen": 8, "paths": 120, "wall_s": 4}
+				}
+			}
 			if mode == "repeat" {
 				h.MapOrder = 4
 				if n == "dupImport" || n == "importShadow" {
